@@ -862,7 +862,9 @@ theorem noOver_next {s : Sys} (hinv : Inv s) (hP : AllCls NoOver s.ca) (c : Cmd)
           · split at hp
             · simp only [Except.ok.injEq] at hp; subst hp; exact plain (by intro e he; cases he)
             · cases hp
-          · simp only [Except.ok.injEq] at hp; subst hp
+          · split at hp
+            · cases hp
+            simp only [Except.ok.injEq] at hp; subst hp
             exact plain (by
               intro e he
               simp only [List.mem_cons, List.not_mem_nil, or_false] at he
